@@ -279,6 +279,71 @@ kb1_wrapped_harness!(kb1_back_wrapped_d7, 1, 7);
 kb1_wrapped_harness!(kb1_back_wrapped_d8, 1, 8);
 
 // ---------------------------------------------------------------------------------------------------------------
+// the output callback may refuse a delivery (zlib.h: a non-zero return makes inflateBack return Z_BUF_ERROR).  Same stream
+// as above (16-byte window, distance 1): the callback refuses the window-full flush, or the final partial flush, or nothing.
+// Whatever it refuses is handed out once: a refusal ends the call, no further delivery follows it.
+pub(crate) struct OutAbort {
+    pub calls: u32,
+    pub total: u32,
+    pub refuse_at: u32,
+    pub calls_after_refusal: u32,
+}
+pub(crate) unsafe extern "C" fn out_cb_refusing(desc: *mut core::ffi::c_void, _buf: *mut u8, len: u32) -> i32 {
+    let d = unsafe { &mut *(desc as *mut OutAbort) };
+    if d.refuse_at != 0 && d.calls >= d.refuse_at {
+        d.calls_after_refusal += 1;
+    }
+    d.calls += 1;
+    d.total += len;
+    (d.calls == d.refuse_at) as i32
+}
+
+#[kani::proof]
+#[kani::unwind(5)]
+#[kani::stub(crate::inflate::inftrees::inflate_table, stub_table_unreachable)]
+#[kani::stub(core::fmt::write, stub_fmt_write)]
+#[kani::stub(core::panicking::panic_nounwind, stub_pn)]
+#[kani::stub(core::panicking::panic_nounwind_fmt, stub_pnf)]
+#[kani::stub(crate::inflate::infback::inflate_fast_back, stub_fast_back_unreachable)]
+#[kani::stub(<[u16]>::fill, stub_fill_unreachable)]
+fn kb1_back_output_refused() {
+    const INPUT: [u8; WIN_IN] = wrapped_input(0);
+    let input = INPUT;
+    let mut win = [0xEEu8; WW];
+    let mut state = State::new(&[], Writer::new(&mut []));
+    state.window = unsafe { Window::from_raw_parts(win.as_mut_ptr(), WW) };
+    state.wbits = 8;
+    state.flags.update(Flags::SANE, true);
+    let n = (9 + WW) as u32; // one more (zero) byte: the 7-bit end-of-block code
+    let mut ind = InDesc { ptr: input.as_ptr(), len: n, first: n, calls: 0 };
+    let refuse_at: u32 = kani::any();
+    kani::assume(refuse_at <= 2);
+    let mut outd = OutAbort { calls: 0, total: 0, refuse_at, calls_after_refusal: 0 };
+    let mut strm = typed_stream(unsafe { &mut *(&mut state as *mut State) });
+    let rc = unsafe {
+        back(
+            &mut strm,
+            in_cb,
+            &mut ind as *mut _ as *mut core::ffi::c_void,
+            out_cb_refusing,
+            &mut outd as *mut _ as *mut core::ffi::c_void,
+        )
+    };
+    core::mem::forget(strm);
+    core::mem::forget(state);
+    assert!(outd.calls_after_refusal == 0, "nothing is delivered after the callback refused a delivery");
+    if refuse_at == 0 {
+        assert!(rc == ReturnCode::StreamEnd && outd.calls == 2 && outd.total as usize == WW + 4);
+    } else {
+        assert!(rc == ReturnCode::BufError);
+        assert!(outd.calls == refuse_at);
+        assert!(outd.total as usize == if refuse_at == 1 { WW } else { WW + 4 }, "every byte is handed out once");
+    }
+    kani::cover!(refuse_at == 1);
+    kani::cover!(refuse_at == 2);
+}
+
+// ---------------------------------------------------------------------------------------------------------------
 // the fast loop of inflateBack (entered with >= 15 input bytes and >= 260 bytes of window left) must give the same verdict
 // as the slow path: a distance that reaches before the start of the data is rejected, also when part of the output was
 // produced by the slow path before the fast loop is entered (input delivered as a 1-byte first slice + the rest).
